@@ -280,3 +280,22 @@ def check_C14(tier):
     v.coverage["transitions"] += cases
     v.coverage["exhaustive_component"] = "every outcome of the generator's random choices for D<=3, n in {1,2,4}"
     return v
+
+
+def check_C17(tier):
+    from . import comp_candfilter
+    v = check_C17run(tier)
+    st, cases = comp_candfilter.run(v, tier)
+    v.coverage["states"] += st
+    v.coverage["transitions"] += cases
+    v.coverage["exhaustive_component"] = "every input of the lattice instance {-1..2}^D, D<=2 (candidates, evaluated subset, infeasible subset, proj)"
+    return v
+
+
+def check_C12(tier):
+    from . import comp_funclog
+    v = run_level_check("C12", tier, ["core_det", "core_noisy"], design_cfgs=())
+    st, cases = comp_funclog.run(v, tier)
+    v.coverage["states"] += st
+    v.coverage["transitions"] += cases
+    return v
